@@ -282,6 +282,12 @@ func checkNetwork(c *Ctx, s *SnapGenome, net *network.Network, graphView bool) (
 			c.Eval(1)
 			has := e.has(u, v)
 			hasRev := e.has(v, u)
+			// for every other pair the undirected question comes before the directed ones
+			if (int(u)+int(v))%2 == 0 {
+				if got := net.HasEdgeBetween(u, v); got != (has || hasRev) {
+					return "graph/has-edge-between", fmt.Sprintf("HasEdgeBetween(%d,%d) = %v, expected %v", u, v, got, has || hasRev)
+				}
+			}
 			if got := net.HasEdgeFromTo(u, v); got != has {
 				return "graph/has-edge", fmt.Sprintf("HasEdgeFromTo(%d,%d) = %v, expected %v", u, v, got, has)
 			}
@@ -326,6 +332,19 @@ func checkNetwork(c *Ctx, s *SnapGenome, net *network.Network, graphView bool) (
 		for v := range from {
 			if !all[v] {
 				return "graph/from", fmt.Sprintf("From(%d) yields unknown node %d", u, v)
+			}
+		}
+	}
+	// the directed questions once more, in the opposite order of pairs, after every kind of question has been asked about every
+	// pair: the answers are the same the second time
+	for i := len(list) - 1; i >= 0; i-- {
+		for j := len(list) - 1; j >= 0; j-- {
+			u, v := list[i], list[j]
+			has := e.has(u, v)
+			c.Eval(1)
+			_, ok := net.Weight(u, v)
+			if got := net.HasEdgeFromTo(u, v); got != has || ok != has || (net.Edge(u, v) != nil) != has || (net.WeightedEdge(u, v) != nil) != has {
+				return "graph/second-answer", fmt.Sprintf("asked again after the other questions, HasEdgeFromTo(%d,%d) = %v, Weight ok = %v, Edge present = %v, expected %v", u, v, got, ok, net.Edge(u, v) != nil, has)
 			}
 		}
 	}
